@@ -1,10 +1,10 @@
 """C09 — containers behave identically on plain HDF5 and on IH5 (P-tier: the IH5 side satisfies the shared protocol
 contracts wherever C01 proves them: child resolution, key guard, delete/attribute write contracts, copy destination)."""
-from . import drivers, h5copy, overlay, ovlgroup, ovlguards, ovlread
+from . import drivers, h5copy, overlay, tocreg, ovlgroup, ovlguards, ovlread
 
 
 def build(reg):
-    specs = overlay.add_overlay(reg) + overlay.add_overlay_strings(reg) + overlay.add_writers(reg) + overlay.add_copy_move(reg) + ovlread.add_ovlread(reg) + ovlread.add_ovlread2(reg) + ovlgroup.add_ovlgroup(reg) + h5copy.add_h5copy(reg) + drivers.add_drivers(reg) + ovlguards.add_ovlguards(reg)
+    specs = overlay.add_overlay(reg) + overlay.add_overlay_strings(reg) + overlay.add_writers(reg) + overlay.add_copy_move(reg) + ovlread.add_ovlread(reg) + ovlread.add_ovlread2(reg) + ovlgroup.add_ovlgroup(reg) + h5copy.add_h5copy(reg) + drivers.add_drivers(reg) + tocreg.add_links_only(reg) + ovlguards.add_ovlguards(reg)
     keep = [s for s in specs if "C09" in s.props]
     from . import oneliners
 
